@@ -58,6 +58,8 @@ enum Plain<'a> {
     /// `mid`: (stream offset where the streamed piece's data starts, its period p): byte q of the middle is
     /// ((q - start) % p) as u8; None = zeros
     Huge { len: u64, head: Vec<u8>, tail: Vec<u8>, mid: Option<(u64, u64)> },
+    /// the plaintext `stream` with its block `k` (of `block` bytes) seen `times` times in a row
+    Replay { stream: Vec<u8>, k: u64, times: u64, block: u64 },
 }
 
 impl Plain<'_> {
@@ -65,6 +67,7 @@ impl Plain<'_> {
         match self {
             Plain::Mem(p) => p.len() as u64,
             Plain::Huge { len, .. } => *len,
+            Plain::Replay { stream, times, block, .. } => stream.len() as u64 + (times - 1) * block,
         }
     }
     /// up to n bytes at pos
@@ -74,6 +77,13 @@ impl Plain<'_> {
         let n = (n as u64).min(len - pos) as usize;
         match self {
             Plain::Mem(p) => p[pos as usize..pos as usize + n].to_vec(),
+            Plain::Replay { stream, k, times, block } => (pos..pos + n as u64)
+                .map(|q| {
+                    let b = q / block;
+                    let ob = if b <= *k { b } else if b < k + times { *k } else { b - (times - 1) };
+                    stream[(ob * block + q % block) as usize]
+                })
+                .collect(),
             Plain::Huge { len, head, tail, mid } => {
                 let tail_at = len - tail.len() as u64;
                 (pos..pos + n as u64)
@@ -162,6 +172,14 @@ fn huge_runs(tier: Tier) -> u64 {
     }
 }
 
+/// runs whose COMPRESSED stream is longer than 2^32 bytes (one incompressible block seen a thousand times)
+fn replay_runs(tier: Tier) -> u64 {
+    match tier {
+        Tier::Quick => 1,
+        Tier::Thorough => 6,
+    }
+}
+
 impl Prop for C11 {
     fn id(&self) -> &'static str {
         "C11"
@@ -170,21 +188,40 @@ impl Prop for C11 {
         "exploration"
     }
     fn rule(&self) -> String {
-        "run = a finalized archive written by the library, whose layer plaintexts are obtained from the independent format model (decrypt / decompress by refmla); a layer reader stack is built exactly as `mlar info` builds it (header parsed, raw layer pinned after the header, then 0, 1 or 2 of the enabled layers) over the simulated source, and a seeded history of 30 operations (250 on the one scaled run in 40 whose plaintext spans 260..700 blocks or more than 65535 chunks) {seek from start / current / end to any target in [0, len] (biased to 0, len, len-k, chunk and block edges +-2), stream_position, read of 0/1/unit/unit+1/random bytes} is played against a std::io::Cursor over the same plaintext: identical positions, identical bytes, a read returns >= 1 byte unless asked for 0 or at the end. The 2 (thorough: 8) runs after the sweep stream a file of 2^32 + a few MiB bytes (period 251, so that content 2^31 or 2^32 apart differs; zeros on one run in four) through the compression layer (alone / over encryption, production constants) and play 40-step histories with targets and relative distances around 2^31, 2^32, block edges and both ends against a model that holds the first and last blocks (decoded by the format model) and the periodic content in between. The first 1800 runs sweep the content length 0..299 on s0 (all four layer sets) and s1 (E, CE) so that every residue of the plaintext length modulo CHUNK (and lengths below one tag, exact multiples) and modulo BLOCK occurs. distinct_nontrivial = distinct (variant, layers, depth, length class vs CHUNK, vs BLOCK, op kinds seen) signatures. One run in three reads through a source that returns short reads (1 byte per call, or 1..m bytes for m in 2..4096); one in twelve through a source that answers `Interrupted` to one call in 3..12 (bursts included): the driver makes the refused call again - a read as it was, a seek as an absolute seek to the same target - and the comparison with the cursor is unchanged.".into()
+        "run = a finalized archive written by the library, whose layer plaintexts are obtained from the independent format model (decrypt / decompress by refmla); a layer reader stack is built exactly as `mlar info` builds it (header parsed, raw layer pinned after the header, then 0, 1 or 2 of the enabled layers) over the simulated source, and a seeded history of 30 operations (250 on the one scaled run in 40 whose plaintext spans 260..700 blocks or more than 65535 chunks) {seek from start / current / end to any target in [0, len] (biased to 0, len, len-k, chunk and block edges +-2), stream_position, read of 0/1/unit/unit+1/random bytes} is played against a std::io::Cursor over the same plaintext: identical positions, identical bytes, a read returns >= 1 byte unless asked for 0 or at the end. The 2 (thorough: 8) runs after the sweep stream a file of 2^32 + a few MiB bytes (period 251, so that content 2^31 or 2^32 apart differs; zeros on one run in four) through the compression layer (alone / over encryption, production constants) and play 40-step histories with targets and relative distances around 2^31, 2^32, block edges and both ends against a model that holds the first and last blocks (decoded by the format model) and the periodic content in between. The first 1800 runs sweep the content length 0..299 on s0 (all four layer sets) and s1 (E, CE) so that every residue of the plaintext length modulo CHUNK (and lengths below one tag, exact multiples) and modulo BLOCK occurs. distinct_nontrivial = distinct (variant, layers, depth, length class vs CHUNK, vs BLOCK, op kinds seen) signatures. One run in three reads through a source that returns short reads (1 byte per call, or 1..m bytes for m in 2..4096); one in twelve through a source that answers `Interrupted` to one call in 3..12 (bursts included): the driver makes the refused call again - a read as it was, a seek as an absolute seek to the same target - and the comparison with the cursor is unchanged. One run (six in the thorough tier) has a COMPRESSED stream beyond 2^32 bytes: three blocks of noise written by the library, the second seen about 1040 times through a generated source, sizes footer rebuilt; the cursor model replays the same block.".into()
     }
     fn assumptions(&self) -> Vec<String> {
         vec!["seek targets are confined to [0, len] as the property states; a read may return fewer bytes than asked".into()]
     }
     fn runs(&self, tier: Tier) -> u64 {
         match tier {
-            Tier::Quick => SYS_S0 + SYS_S1 + 6000 + huge_runs(tier),
-            Tier::Thorough => SYS_S0 + SYS_S1 + 200_000 + huge_runs(tier),
+            Tier::Quick => SYS_S0 + SYS_S1 + 6000 + huge_runs(tier) + replay_runs(tier),
+            Tier::Thorough => SYS_S0 + SYS_S1 + 200_000 + huge_runs(tier) + replay_runs(tier),
         }
     }
     fn make(&self, seed: u64, run: u64, tier: Tier) -> Case {
         let mut rng = Rng::derive(seed, "C11", run, "gen");
         let mut case;
         let mut long_hist = false;
+        let after_huge = SYS_S0 + SYS_S1 + huge_runs(tier);
+        if run >= after_huge && run < after_huge + replay_runs(tier) {
+            // a compression layer whose COMPRESSED stream exceeds 2^32 bytes: three blocks of noise written by the
+            // library, the second one then seen a thousand times through a generated source (blocks are compressed
+            // independently: it is byte for byte what the writer would have produced for that plaintext)
+            let k = run - after_huge;
+            let cfg = ArcCfg { variant: "prod".into(), layers: L_COMP, level: (k % 2) as u32, recipients: 0, reader: 0, rng_seed: 0, key_seed: 5 };
+            let block = consts_of("prod").block;
+            let n = 2 * block as usize + rng.range(1, block - 1) as usize;
+            let ops = vec![WOp::Add { name: Name::lit("noise"), data: Data::Rand { n, seed: rng.u64() }, src: Src::exact() }, WOp::Add { name: Name::lit("tail"), data: Data::Text { n: 1000, seed: 4 }, src: Src::exact() }, WOp::Finalize];
+            let mut case = Case::new("C11", cfg, ops);
+            let times = ((1u64 << 32) + (64 << 20)) / block + rng.below(60);
+            case.params.insert("huge".into(), 1);
+            case.params.insert("replay".into(), times as i64);
+            case.params.insert("depth".into(), 1);
+            let plain_len = stream_len(&case.ops) as u64 + (times - 1) * block;
+            case.lops = gen_hist_huge(&mut rng, plain_len, 40, block);
+            return case;
+        }
         if run >= SYS_S0 + SYS_S1 && run < SYS_S0 + SYS_S1 + huge_runs(tier) {
             // one file of 2^32 + a few MiB zero bytes streamed through the compression layer (alone, or over encryption)
             let k = run - SYS_S0 - SYS_S1;
@@ -294,7 +331,41 @@ impl Prop for C11 {
         let depth = case.param("depth", 0) as usize;
         let huge = case.param("huge", 0) == 1;
         let lay;
-        let (plain, top): (Plain, &str) = if huge {
+        let replay = case.param("replay", 0) as u64;
+        let mut rcfg = ReadCfg::for_cfg(&case.cfg);
+        let mut image = image;
+        let (plain, top): (Plain, &str) = if replay > 1 {
+            let l = match layout_of(&image, &case.cfg, chunk, block) {
+                Ok(l) => l,
+                Err(e) => {
+                    v.push(Violation::new("model-cannot-decode", "decode", format!("format model rejects the archive: {e}")));
+                    return v;
+                }
+            };
+            let hlen = l.dec.header.len;
+            let Some(cl) = l.dec.comp.as_ref().filter(|c| c.blocks.len() >= 3) else {
+                ctx.probe("replay-run-with-fewer-than-3-blocks (run skipped)");
+                return v;
+            };
+            let (off, sz, _) = cl.blocks[1];
+            let mut sizes: Vec<u32> = cl.blocks.iter().map(|b| b.1 as u32).collect();
+            for _ in 1..replay {
+                sizes.insert(1, sz as u32);
+            }
+            // the sizes footer of the longer stream: count, compressed sizes, size of the last block, its own length
+            let mut tail = Vec::with_capacity(16 + 4 * sizes.len());
+            tail.extend_from_slice(&(sizes.len() as u64).to_le_bytes());
+            for x in &sizes {
+                tail.extend_from_slice(&x.to_le_bytes());
+            }
+            tail.extend_from_slice(&cl.last_block_size.to_le_bytes());
+            tail.extend_from_slice(&((8 + 4 * sizes.len() + 4) as u32).to_le_bytes());
+            image.truncate(hlen + cl.sizes_at);
+            image.extend_from_slice(&tail);
+            rcfg.replay = Some(((hlen + off) as u64, sz as u64, replay));
+            crate::seams::fired("compressed_stream_beyond_2_pow_32");
+            (Plain::Replay { stream: l.dec.stream.clone(), k: 1, times: replay, block: block as u64 }, "compress")
+        } else if huge {
             // the format model decodes the first and the last two blocks only
             let decode = || -> Result<Plain<'static>, String> {
                 let header = crate::refmla::parse_header(&image)?;
@@ -352,7 +423,7 @@ impl Prop for C11 {
         let unit = if top == "raw" { 16 } else if top == "encrypt" { chunk as u64 } else { block as u64 };
         if huge {
             crate::seams::fired("plaintext_beyond_2_pow_32");
-            if case.faults.is_empty() && len != stream_len(&case.ops) as u64 {
+            if case.faults.is_empty() && len != stream_len(&case.ops) as u64 + replay.saturating_sub(1) * block as u64 {
                 // harness self-check: the explicit history was generated for the modelled length
                 ctx.probe("huge-stream-length-model-mismatch (run skipped)");
                 return v;
@@ -363,7 +434,6 @@ impl Prop for C11 {
         } else {
             gen_hist(&mut Rng::new(case.param("hist_seed", 1) as u64), len, case.param("hist_len", 30) as usize, unit)
         };
-        let mut rcfg = ReadCfg::for_cfg(&case.cfg);
         match case.param("src_short", 0) {
             0 => {}
             1 => rcfg.sched = Sched::One,
